@@ -258,14 +258,13 @@ func (a String) M__iadd__(other Object) (Object, error) {
 
 func (a String) M__mul__(other Object) (Object, error) {
 	if b, ok := convertToInt(other); ok {
+		if _, err := repeatLength(len(a), b); err != nil {
+			return nil, err
+		}
 		if b < 0 {
 			b = 0
 		}
-		var out bytes.Buffer
-		for i := 0; i < int(b); i++ {
-			out.WriteString(string(a))
-		}
-		return String(out.String()), nil
+		return String(strings.Repeat(string(a), int(b))), nil
 	}
 	return NotImplemented, nil
 }
